@@ -176,12 +176,12 @@ func c18Addr(c *harness.Check, cs addrCase) string {
 
 func TestC18_Addressing(t *testing.T) {
 	c := harness.New(t, "C18", "addressing",
-		"directory trees over names {a, b, idx} at depths {., sub, sub/deep, d<ext>/} with decoys whose names merely contain the extension (a<ext>.bak, a<ext>ig, n.txt inside a directory named x<ext>, a<ext><ext>, the bare extension) and garbage in decoys; template directory nested one or two levels and spelled t, t/, ./t, x/../t, t//, /t; extensions .tw, .tw.html, .html; one case in six leaves the directory, the extension, both or the whole configuration out (the documented defaults \"templates\" and \".tw.html\" apply). Oracle: the registered names (hook VerifNames) are exactly {relative path minus extension of every file whose name ends in the extension}; each renders its own content; decoys, unknown names and layouts (files with reserves) are reported as not found; EvaluateFile(path) == EvaluateString(content). Non-trivial: a nested directory, a decoy and a non-canonical spelling or a defaulted configuration. Distinct by hash.")
+		"directory trees over names {a, b, idx} at depths {., sub, sub/deep, d<ext>/} with decoys whose names merely contain the extension (a<ext>.bak, a<ext>ig, n.txt inside a directory named x<ext>, a<ext><ext>, the bare extension) and garbage in decoys; template directory nested one or two levels and spelled t, t/, ./t, x/../t, t//, /t, t/sub/.., t/sub/../, t/., x/./../t (directory names may begin or end with a dot); extensions .tw, .tw.html, .html; one case in six leaves the directory, the extension, both or the whole configuration out (the documented defaults \"templates\" and \".tw.html\" apply). Oracle: the registered names (hook VerifNames) are exactly {relative path minus extension of every file whose name ends in the extension}; each renders its own content; decoys, unknown names and layouts (files with reserves) are reported as not found; EvaluateFile(path) == EvaluateString(content). Non-trivial: a nested directory, a decoy and a non-canonical spelling or a defaulted configuration. Distinct by hash.")
 	defer c.Finish()
 	runRapid(t, c, 2000, 24000, func(rt *rapid.T) {
 		ext := rapid.SampledFrom([]string{".tw", ".tw.html", ".html"}).Draw(rt, "ext")
-		realDir := rapid.SampledFrom([]string{"t", "x/t", "tpl/views"}).Draw(rt, "realDir")
-		spell := rapid.SampledFrom([]string{"plain", "trailing", "dot", "parent", "double", "leading"}).Draw(rt, "spelling")
+		realDir := rapid.SampledFrom([]string{"t", "x/t", "tpl/views", ".hidden/t", "t.d", "x/.t", "tpl./v."}).Draw(rt, "realDir")
+		spell := rapid.SampledFrom([]string{"plain", "trailing", "dot", "parent", "double", "leading", "parent-at-end", "parent-at-end-slash", "dot-at-end", "dot-middle"}).Draw(rt, "spelling")
 		dir := realDir
 		switch spell {
 		case "trailing":
@@ -194,6 +194,14 @@ func TestC18_Addressing(t *testing.T) {
 			dir = realDir + "//"
 		case "leading":
 			dir = "/" + realDir
+		case "parent-at-end":
+			dir = realDir + "/sub/.."
+		case "parent-at-end-slash":
+			dir = realDir + "/sub/../"
+		case "dot-at-end":
+			dir = realDir + "/."
+		case "dot-middle":
+			dir = "x/./../" + realDir
 		}
 		cfgForm := "explicit"
 		if rapid.IntRange(0, 5).Draw(rt, "defaults") == 0 {
@@ -206,7 +214,7 @@ func TestC18_Addressing(t *testing.T) {
 				ext = ".tw.html"
 			}
 		}
-		tr := tree.Tree{"x/keep.txt": {Content: "not a template"}}
+		tr := tree.Tree{"x/keep.txt": {Content: "not a template"}, realDir + "/sub/keep.txt": {Content: "not a template either"}}
 		nFiles := rapid.IntRange(1, 6).Draw(rt, "nFiles")
 		nested, decoy := false, false
 		for i := 0; i < nFiles; i++ {
